@@ -248,9 +248,6 @@ Fixpoint alpn_loop (fuel : nat) (s : bytes) : option (list bytes) :=
          end
   end.
 
-Definition last_only (l : list N) (dflt : list N) : list N :=
-  match rev l with x :: _ => [x] | [] => dflt end.
-
 Definition ch_set_sni (m : chello) v := mkCH (ch_vers m) (ch_random m) (ch_sid m) (ch_cookie m) (ch_suites m) (ch_comp m)
   v (ch_tas m) (ch_ocsp m) (ch_curves m) (ch_sigalgs m) (ch_alpn m) (ch_cid m).
 Definition ch_set_tas (m : chello) v := mkCH (ch_vers m) (ch_random m) (ch_sid m) (ch_cookie m) (ch_suites m) (ch_comp m)
@@ -267,9 +264,9 @@ Definition ch_set_cid (m : chello) v := mkCH (ch_vers m) (ch_random m) (ch_sid m
   (ch_sni m) (ch_tas m) (ch_ocsp m) (ch_curves m) (ch_sigalgs m) (ch_alpn m) v.
 
 (* [merge]: tlcp appends the values of a repeated supported_groups / signature_algorithms
-   extension to the list (merge = true).  dtlcp re-allocates the list inside the per-value
-   loop (`m.supportedCurves = make(...)` is the first statement of the loop body), so after
-   the loop the list holds only the last value (merge = false). *)
+   extension to the list (merge = true).  dtlcp allocates a fresh list before the per-value
+   loop (`m.supportedCurves = make(...)`), so the values of the extension -- all of them, in
+   order -- replace what an earlier extension of the same type left (merge = false). *)
 Definition ch_ext (merge : bool) (m : chello) (e : N * bytes) : option chello :=
   let '(t, d) := e in
   if t =? extServerName then
@@ -290,14 +287,14 @@ Definition ch_ext (merge : bool) (m : chello) (e : N * bytes) : option chello :=
     if empty cs then None else
     l <- rd_u16s cs ;;
     if empty d1
-    then Some (ch_set_curves m (if merge then ch_curves m ++ l else last_only l (ch_curves m)))
+    then Some (ch_set_curves m (if merge then ch_curves m ++ l else l))
     else None
   else if t =? extSignatureAlgorithms then
     '(cs, d1) <- rd_vec16 d ;;
     if empty cs then None else
     l <- rd_u16s cs ;;
     if empty d1
-    then Some (ch_set_sigalgs m (if merge then ch_sigalgs m ++ l else last_only l (ch_sigalgs m)))
+    then Some (ch_set_sigalgs m (if merge then ch_sigalgs m ++ l else l))
     else None
   else if t =? extALPN then
     '(pl, d1) <- rd_vec16 d ;;
